@@ -115,4 +115,7 @@ def check(ctx, R):
     R.run("C15.e", rule_e, ctx)
     from . import c12
     R.run("C15.f", lambda R, c: c12.keep_propagates(R, c, "C15.f"), ctx)
+    from . import preds
+    R.run("C15.p", lambda R, c: preds.rule(R, c, "C15.p", ["branch_is_deleted", "flags_check"]), ctx)
+    R.run("C15.p", lambda R, c: preds.flag_table(R, c, "C15.p"), ctx)
     return {}
